@@ -437,7 +437,7 @@ func configs(tier string) []config {
 // Run explores the limiter for the configurations of this shard. The report is
 // written for rep.Property (C03 or C13): only that property's violations are kept.
 func Run(tier string, sh lib.Shard, rep *lib.Report) {
-	exactDepth, cap := 5, 60000
+	exactDepth, cap := 5, 30000
 	if tier == "thorough" {
 		exactDepth, cap = 7, 600000
 	}
@@ -462,14 +462,20 @@ func Run(tier string, sh lib.Shard, rep *lib.Report) {
 		m := model(cfg, tier, true, 0)
 		m.MaxStates = cap
 		r := m.RunDistributed(rep, sh, gang)
-		results = append(results, m.Name+": "+r.Describe())
-		rep.Sample(2, map[string]any{"model": m.Name, "result": r.Describe()})
-		if r.Complete {
-			rep.Count("configs_explored_to_fixpoint")
+		// per-model totals are summed over the workers (each owns the states of its hash class)
+		rep.Add("states["+m.Name+"]", r.States)
+		if sh.I == 0 {
+			rep.Sample(2, map[string]any{"model": m.Name, "worker_0_share": r.Describe()})
+			if r.Complete {
+				rep.Count("configs_explored_to_fixpoint")
+				results = append(results, m.Name+": fixpoint (histories of unbounded length)")
+			} else {
+				results = append(results, fmt.Sprintf("%s: stopped at the state cap or budget after depth %d", m.Name, r.Depth))
+			}
 		}
 		m2 := model(cfg, tier, false, exactDepth)
 		r2 := m2.RunDistributed(rep, sh, gang)
-		results = append(results, m2.Name+": "+r2.Describe())
+		rep.Add("states["+m2.Name+"]", r2.States)
 	}
 	rep.Bounds["searches"] = results
 	rep.Nontrivial = rep.States
